@@ -110,6 +110,23 @@ def check_C11(run):
     return run.finish(rule="matrices up to 4x4 with entries +-2^e over the whole exponent range of the type (subnormal to near overflow, empty rows/columns, explicit zeros, complex entries measured as |re|+|im|): every output of ?gsequ/?laqgs compared as an exponent with SluEquil; random mantissas for the rounding slice")
 
 
+def check_C12(run):
+    run.model_check("Cond_2", "MC_Cond.tla", "MC_Cond_2.cfg", coverage=False)
+    run.model_check("Cond_3", "MC_Cond.tla", "MC_Cond_3.cfg", coverage=False)
+    g = Gen(run.seed * 1000 + 12)
+    types = {"d": 1.0, "s": 0.4, "z": 0.4, "c": 0.2} if run.tier == "quick" else FULL_TYPES
+    run.conform("lacon", F.fam_lacon(g, "C12", sizes(run, 400, 4000), {"d": 1.0, "s": 0.5}), ["C12."])
+    run.conform("cond", merge(F.fam_cond(g, "C12", sizes(run, 700, 6000), types), F.fam_singular(g, "C12", sizes(run, 150, 1500), types, fn="gssvx")), ["C12."])
+    return run.finish(rule="the estimator automaton replayed on explicit operators; expert-driver runs over graded / generic / random-float systems with condition numbers from 1 to beyond 1/eps, both norms (Trans), both storages, equilibration on/off; singular systems for the growth factor")
+
+
+def check_C13(run):
+    g = Gen(run.seed * 1000 + 13)
+    types = {"d": 1.0, "s": 0.4, "z": 0.5, "c": 0.2} if run.tier == "quick" else FULL_TYPES
+    run.conform("refine", merge(F.fam_cond(g, "C13", sizes(run, 700, 6000), types), F.fam_gssvx(g, "C13", sizes(run, 400, 4000), types)), ["C13."])
+    return run.finish(rule="expert-driver runs with refinement on/off over well / ill conditioned and badly scaled systems, all Trans, zero right-hand-side columns; refinement-loop events validated against the loop automaton, BERR against the exact backward error of the returned X")
+
+
 def check_C18(run):
     objs, st, out = vlib.tlc_generate("C18_screen", "SluScreen.tla", "SluScreen.cfg")
     if "No error has been found" not in out:
